@@ -238,9 +238,12 @@ C08_ClaimExact(x) ==
 \* Who is a grantee is NOT read from the model's own rw list but from the ghost: the list of the owner's last ACCEPTED
 \* permission update (gh.grants) - a revocation that was accepted but not applied must not leave the old grantee in power.
 GrantOf(g, d) == IF Has(g.grants, "data", d) THEN Get(g.grants, "data", d).rw ELSE <<>>
-Allowed(m, ev, kinds, g) ==
-    /\ ev.sigmode = "ok" /\ ev.signer = ev.owner
-    /\ IF "rw" \in kinds THEN ev.signer = m.owner \/ InSeq(ev.signer, GrantOf(g, m.data)) ELSE ev.signer = m.owner
+\* The principal is the DID whose key REALLY signed (State!Principal: a did:key, or the sid DID whose version list holds
+\* the signing document) - not what the request's header claims.
+Allowed(pre, m, ev, kinds, g) ==
+    LET p == Principal(g.cfg, pre, ev) IN
+    /\ ev.sigmode = "ok" /\ p # "" /\ p = ev.owner
+    /\ IF "rw" \in kinds THEN p = m.owner \/ InSeq(p, GrantOf(g, m.data)) ELSE p = m.owner
 \* an accepted permission update takes effect exactly as signed
 C09_PermissionApplied(x) ==
     (Kind(x) = "Permission" /\ Ok(x)) =>
@@ -255,11 +258,11 @@ C09_ModelChangeAuthorised(x, g) ==
     \A d \in AllData(x) : MetaChanged(x, d) =>
         CASE Kind(x) = "Store" ->
                 /\ d = x.ev.data
-                /\ IF HasMeta(x.pre, d) THEN Allowed(MetaOf(x.pre, d), x.ev, {"rw"}, g)
-                   ELSE x.ev.sigmode = "ok" /\ x.ev.signer = x.ev.owner /\ MetaOf(x.post, d).owner = x.ev.signer
-          [] Kind(x) = "Terminate"  -> d = x.ev.data /\ Allowed(MetaOf(x.pre, d), x.ev, {"rw"}, g)
-          [] Kind(x) = "Renew"      -> InSeq(d, x.ev.datas) /\ HasMeta(x.pre, d) /\ Allowed(MetaOf(x.pre, d), x.ev, {}, g)
-          [] Kind(x) = "Permission" -> d = x.ev.data /\ Allowed(MetaOf(x.pre, d), x.ev, {}, g)
+                /\ IF HasMeta(x.pre, d) THEN Allowed(x.pre, MetaOf(x.pre, d), x.ev, {"rw"}, g)
+                   ELSE x.ev.sigmode = "ok" /\ Principal(g.cfg, x.pre, x.ev) = x.ev.owner /\ MetaOf(x.post, d).owner = x.ev.owner
+          [] Kind(x) = "Terminate"  -> d = x.ev.data /\ Allowed(x.pre, MetaOf(x.pre, d), x.ev, {"rw"}, g)
+          [] Kind(x) = "Renew"      -> InSeq(d, x.ev.datas) /\ HasMeta(x.pre, d) /\ Allowed(x.pre, MetaOf(x.pre, d), x.ev, {}, g)
+          [] Kind(x) = "Permission" -> d = x.ev.data /\ Allowed(x.pre, MetaOf(x.pre, d), x.ev, {}, g)
           [] Kind(x) \in {"Complete", "Cancel"} -> d \in OrderData(x.pre, x.ev.order)
           [] OTHER -> FALSE
 
